@@ -19,7 +19,7 @@ REAL = ["GeneralInstanceGenerator", "InstanceGenerator (iteration protocol, nami
         "DispatchingRuleSolver with the random rule (RNG consumer)"]
 STUB = []
 ASSUMPTIONS = ["'drawn from all M machines' is checked only when a uniform choice would miss a machine id with probability < 1e-9",
-               "allow_less_jobs_than_machines=False is only generated with satisfiable ranges (min machines <= min jobs)"]
+               "allow_less_jobs_than_machines=False with a draw of fewer jobs than the machine minimum: only jobs >= machines and M <= max are demanded (the range minimum cannot hold too)"]
 STATE_MEASURE = "distinct (generator parameters, index in its sequence) pairs"
 
 
@@ -27,18 +27,21 @@ def gen_params(rng):
     jlo = rng.randint(1, 5)
     jhi = jlo + rng.randint(0, 3)
     allow_less = rng.random() < 0.55
-    mlo = rng.randint(1, jlo if not allow_less else 5)
+    # with the flag off, 25 % of the parameter sets have a machine minimum above the job minimum: draws with fewer
+    # jobs than the machine minimum cannot satisfy both clauses; there only the flag's promise (jobs >= machines) is checked
+    mlo = rng.randint(1, jlo if (not allow_less and rng.random() < 0.75) else 5)
     mhi = mlo + rng.randint(0, 4)
     dlo = rng.randint(0, 5)
     dhi = dlo + rng.randint(0, 9)
     r = rng.random()
+    mcap = mlo if allow_less else min(mlo, jlo)
     if r < 0.55:
         mpo = 1
     elif r < 0.75:
-        mpo = rng.randint(1, mlo)
+        mpo = rng.randint(1, mcap)
     else:
-        a = rng.randint(1, mlo)
-        mpo = [a, rng.randint(a, mlo)]
+        a = rng.randint(1, mcap)
+        mpo = [a, rng.randint(a, mcap)]
     return {
         "num_jobs": jlo if (jlo == jhi and rng.random() < 0.5) else [jlo, jhi],
         "num_machines": mlo if (mlo == mhi and rng.random() < 0.5) else [mlo, mhi],
@@ -109,7 +112,12 @@ def check_instance(ctx, g, inst, names_seen, usage, gi):
     lens = {len(j) for j in jobs}
     ctx.check(len(lens) == 1, "jobs_have_M_operations", lambda: f"{what}: job lengths {sorted(lens)}")
     M = len(jobs[0])
-    ctx.check(mlo <= M <= mhi, "machine_count_in_range", lambda: f"{what}: jobs have {M} operations, requested machines {g['num_machines']}")
+    unsat = (not g["allow_less_jobs_than_machines"]) and nj < mlo
+    if unsat:
+        ctx.probe("draw_with_fewer_jobs_than_machine_minimum")
+        ctx.check(M <= mhi, "machine_count_in_range", lambda: f"{what}: jobs have {M} operations, requested machines {g['num_machines']}")
+    else:
+        ctx.check(mlo <= M <= mhi, "machine_count_in_range", lambda: f"{what}: jobs have {M} operations, requested machines {g['num_machines']}")
     ids = [m for j in jobs for op in j for m in op.machines]
     ctx.check(all(0 <= m < M for m in ids), "machine_ids_below_M", lambda: f"{what}: machine ids {sorted(set(ids))} with M={M}")
     durs = [op.duration for j in jobs for op in j]
